@@ -44,6 +44,16 @@ fn k_unicode_copying() {
     core::mem::forget(r);
 }
 
+/// Cut: the escape branch (copying through a Vec) is assumed away by the harness below, but it is
+/// syntactically reachable and dominates the formula; it must not be entered.
+unsafe fn cut_parse_string_escaped<'de, 'own, R: Reader<'de>>(
+    p: &mut Parser<R>,
+    _buf: &'own mut Vec<u8>,
+) -> Result<ParsedSlice<'de, 'own>> {
+    kani::assert(false, "escape branch entered although the literal has no backslash");
+    Err(crate::error::verif_kani_error::syntax_cut(InvalidEscape, p.read.as_u8_slice(), 0))
+}
+
 /// C09/C02 U-parse_string_raw (borrowed branch): reader just after the opening quote; for every
 /// buffer of length <= N *without a backslash before the closing quote* the decoder returns the
 /// literal borrowed with the exact span, rejects raw control characters and a missing quote.
@@ -51,6 +61,8 @@ fn k_unicode_copying() {
 #[kani::proof]
 #[kani::unwind(10)]
 #[kani::stub(crate::error::Error::syntax, crate::error::verif_kani_error::syntax_cut)]
+#[kani::stub(core::arch::x86_64::_mm_max_epu8, crate::verif_kmodels::mm_max_epu8)]
+#[kani::stub(Parser::parse_string_escaped, cut_parse_string_escaped)]
 fn u_parse_string_raw_borrowed_n8() {
     const N: usize = 8;
     let buf: [u8; N] = kani::any();
